@@ -529,7 +529,7 @@ theorem evaluate_inv (cfg : Config) (env : Env) (now : Int) (fuel : Nat) (pop0 :
     Inv (Selected cfg now pop0) pop0 (evaluate cfg env now fuel pop0).pop := by
   unfold evaluate
   split
-  · exact Inv.init _ _
+  · exact loop_superfluous_inv env fuel pop0 (Inv.init _ _)
   · rename_i ot hot
     have h1 := loop_expired_inv (now := now) (pop0 := pop0) env hot fuel pop0 (Inv.init _ _)
     split
@@ -634,6 +634,48 @@ theorem loop_superfluous_J {cfg : Config} {m : Nat} (env : Env) (hm : cfg.maxFin
     exact (Option.some.inj this).symm
   subst this
   exact J_step hQ v (deleteBatch_facts env _ Q Q' hb)
+
+/-- the `superfluous` loop alone: after a normal end no removed root is newer than a kept
+    eligible one -/
+theorem superfluous_keeps_newest {cfg : Config} {env : Env} {fuel : Nat} {p1 after : Pop}
+    (hu1 : UniqueIds p1) (hok : loop (superfluousIds cfg) env fuel p1 = .ok after)
+    {d : Node} (hd1 : d ∈ p1) (hdroot : d.parent = none) (hdgone : d ∉ after)
+    {k : Node} (hk : k ∈ after) (hke : eligible cfg k = true) :
+    d.updatedAt ≤ k.updatedAt := by
+  have hexit2 := loop_ok_exit _ env fuel p1 after hok
+  have inv2 := loop_superfluous_inv (cfg := cfg) (now := 0) (pop0 := p1) env fuel p1 (Inv.init _ _)
+  rw [hok] at inv2
+  simp only [Outcome.pop] at inv2
+  obtain ⟨r, hr, _, hsel, hdesc⟩ := inv2.del d hd1 hdgone
+  have hid := hdesc.root_eq hu1 d hd1 rfl hdroot
+  have := unique_of_id hu1 hd1 hr hid
+  subst this
+  have hde := hsel.1
+  have hf : fuel ≠ 0 := by intro h0; subst h0; simp [loop] at hok
+  cases hmf : cfg.maxFinished with
+  | none =>
+    rw [loop_fetch_nil (superfluousIds cfg) env (superfluousIds_nil_of_unset (Or.inl hmf)) fuel p1 hf] at hok
+    cases hok
+    exact absurd hd1 hdgone
+  | some m =>
+    cases m with
+    | zero =>
+      rw [loop_fetch_nil (superfluousIds cfg) env (superfluousIds_nil_of_unset (Or.inr hmf)) fuel p1 hf] at hok
+      cases hok
+      exact absurd hd1 hdgone
+    | succ m' =>
+      have hj := loop_superfluous_J env hmf p1 fuel p1
+        ⟨hu1, List.Sublist.refl _, fun x hx1 _ hx => absurd hx1 hx⟩
+      rw [hok] at hj
+      simp only [Outcome.pop] at hj
+      have hcount := hj.2.2 d hd1 hde hdgone
+      have hle := superfluousIds_nil hmf (by omega) hexit2
+      apply Classical.byContradiction
+      intro hlt
+      have := countP_lt_of_witness (eligible cfg) (atLeastAsNew cfg d) after
+        (by intro x _ hx; simp only [atLeastAsNew, Bool.and_eq_true] at hx; exact hx.1)
+        ⟨k, hk, hke, by simp [atLeastAsNew, hke]; omega⟩
+      omega
 
 /-! ### subtrees again: what is under a removed row is removed -/
 
